@@ -35,7 +35,7 @@ import (
 	"verifharness/lib"
 )
 
-const rule = "history case: distinct (tamper, lengths, bytes read first, mode, GOMAXPROCS); document case: distinct (base seeds, plaintext length, cipher, mutation list, script, unwrap mode) with at least one mutation or a failing source; loop case: distinct (segment size, length, mutation, script). Complete enumerations (independent of the seed): toy-AEAD loop tie over segSize in {1,2,3}, content length 0..3*seg+1: truncation at every offset, one bit flip at every byte position, deletion and duplication of every segment (and the swaps/appends listed in the generator), a transient source failure at every offset, each under three fixed reader scripts and one seeded script; real documents: every mutation kind x offset/flip class of the class tables, every unwrap mode, source failure at every offset class x delivery style x failure kind x error value of the palette are each covered at least once per run, but the position inside a class, bits, reader scripts, multi-mutation lists, zero-key cases and histories are drawn from the seed, hence exhaustive=false for the run. Units: `evaluations` counts cases; `traces_validated_against_impl` counts comparisons of an implementation observable (released bytes + terminal error class) with the Lean model's value; cases the model does not cover (histories, pool probe) have monitors only and add no trace."
+const rule = "history case: distinct (tamper, lengths, bytes read first, mode, GOMAXPROCS); document case: distinct (base seeds, plaintext length, cipher, mutation list, script, unwrap mode) with at least one mutation or a failing source; loop case: distinct (segment size, length, mutation, script). Complete enumerations (independent of the seed): toy-AEAD loop tie over segSize in {1,2,3}, content length 0..3*seg+1: truncation at every offset, one bit flip at every byte position, deletion and duplication of every segment (and the swaps/appends listed in the generator), a transient source failure at every offset, each under three fixed reader scripts and one seeded script; real documents: every mutation kind x offset/flip class of the class tables, every unwrap mode, source failure at every offset class x delivery style x failure kind x error value of the palette are each covered at least once per run, but the position inside a class, bits, reader scripts, multi-mutation lists, zero-key cases and histories are drawn from the seed, hence exhaustive=false for the run. Units: `evaluations` counts cases; `traces_validated_against_impl` counts comparisons of an implementation observable (released bytes + terminal error class) with the Lean model's value; cases the model does not cover (histories, pool probe, streamed many-segment documents) have monitors only and add no trace. Segment-level family (cmd/c02nonce, in-package overlay): nonce case: distinct (prefix, n, last, m, last') with (n, last) != (m, last'); segpos case: distinct (cipher, seed, length, sealed at, presented at); window case: distinct (cipher, seed, segment size, base, replaced index, distance, script); complete per base number of the fixed boundary list (0, 1, 2, 127, 128, 255, 256, 257, 2000, 65535, 65536, 65537, 2^16*255, 2^24-1, 2^24, 2^24+1, 0x01020304, 2^31-1, 2^31, 2^31+1, 2^32-2, 2^32-1): all 32 one-bit and 496 two-bit differences of the counter, the 23 other orders of its bytes, distances +-{1,255,256,257,65535,65536,65537,2^24,2^31}, the other last flag, all pairs of the list, under three nonce prefixes. bigdoc case: distinct (cipher, seed, segments, mutation, a, b): streamed documents of 5..516 segments (quick) and of 65539 segments = 4 GiB (thorough) with two segments exchanged or one replaced by a copy of another at distances 1, 2, 256, 512 and 65536."
 
 const S = 65536
 const SS = S + 16
@@ -1290,6 +1290,12 @@ func run(f lib.Flags) {
 		json.Unmarshal(rf.Case, &kind)
 		if kind.Kind == "toy" {
 			encx.RunLoop("c02", f, res)
+		} else if kind.Kind == "nonce" || kind.Kind == "segpos" || kind.Kind == "window" {
+			runNonceHarness(f, res)
+		} else if kind.Kind == "bigdoc" {
+			var c bigCase
+			json.Unmarshal(rf.Case, &c)
+			checkBig(res, c, 1)
 		} else if kind.Kind == "zerokey" {
 			var c zkCase
 			json.Unmarshal(rf.Case, &c)
@@ -1312,6 +1318,8 @@ func run(f lib.Flags) {
 
 	// small-scale loop tie (separate binary built with the overlay)
 	encx.RunLoop("c02", f, res)
+	// segment-level tie at chosen segment numbers (separate binary built with its own overlay)
+	runNonceHarness(f, res)
 	rng.Fork()
 	cases := gen(f.Tier, rng.Fork(), f.Search)
 	for i, c := range cases {
@@ -1322,6 +1330,10 @@ func run(f lib.Flags) {
 	}
 	for i, c := range genHistory(f.Tier, rng.Fork(), f.Search) {
 		checkHistory(res, c, i)
+	}
+	// streamed many-segment documents (drawn after every other family: their seeds do not move)
+	for i, c := range genBig(f.Tier, rng.Fork(), f.Search) {
+		checkBig(res, c, i)
 	}
 	res.Write(f.Out)
 }
